@@ -170,6 +170,8 @@ impl From<Config> for SocketAddr {
 impl IpTransport {
     pub(crate) fn bind(config: Config, metrics: Arc<SocketMetrics>) -> io::Result<Self> {
         let addr: SocketAddr = config.into();
+        #[cfg(iroh_verif)]
+        let addr = verif_hooks::bind_addr_override(addr);
         debug!(?addr, "binding");
         let socket = netwatch::UdpSocket::bind_full(addr).inspect_err(|err| {
             debug!(%addr, "failed to bind: {err:#}");
@@ -325,6 +327,8 @@ impl IpSender {
         transmit: &Transmit<'_>,
     ) -> Poll<io::Result<()>> {
         let total_bytes = transmit.contents.len() as u64;
+        #[cfg(iroh_verif)]
+        verif_hooks::log_send(&self.config, dst, src);
         let res = Pin::new(&mut self.sender).poll_send(
             &noq_udp::Transmit {
                 destination: Self::canonical_addr(dst),
@@ -474,6 +478,177 @@ impl IpTransports {
 
     pub(super) fn iter_mut(&mut self) -> impl Iterator<Item = &mut IpTransport> {
         self.v4.iter_mut().chain(self.v6.iter_mut())
+    }
+
+    /// Sorted sockets (configuration, local address) and default indices: v4, then v6.
+    #[cfg(iroh_verif)]
+    #[allow(clippy::type_complexity)]
+    pub(super) fn verif_layout(
+        &self,
+    ) -> (
+        Vec<(verif_hooks::IpCfg, SocketAddr)>,
+        Option<usize>,
+        Vec<(verif_hooks::IpCfg, SocketAddr)>,
+        Option<usize>,
+    ) {
+        let list = |ts: &[IpTransport]| {
+            ts.iter()
+                .map(|t| {
+                    (
+                        verif_hooks::IpCfg::from_config(&t.config),
+                        t.local_addr.get(),
+                    )
+                })
+                .collect()
+        };
+        (
+            list(&self.v4),
+            self.default_v4_index,
+            list(&self.v6),
+            self.default_v6_index,
+        )
+    }
+}
+
+/// Verification hooks, compiled only with `--cfg iroh_verif`.
+#[cfg(iroh_verif)]
+pub mod verif_hooks {
+    use std::{
+        cell::{Cell, RefCell},
+        net::{IpAddr, Ipv4Addr, Ipv6Addr, SocketAddr, SocketAddrV4, SocketAddrV6},
+    };
+
+    use super::Config;
+
+    /// Plain description of an IP transport configuration (`ip::Config`).
+    #[derive(Debug, Clone, Copy, PartialEq, Eq, Hash)]
+    pub struct IpCfg {
+        /// The address to bind on (with its host bits).
+        pub addr: IpAddr,
+        /// Prefix length of the subnet.
+        pub prefix_len: u8,
+        /// Scope id (IPv6 only, `0` for IPv4).
+        pub scope_id: u32,
+        /// The port to bind on.
+        pub port: u16,
+        /// Is binding mandatory?
+        pub is_required: bool,
+        /// Is this a default route?
+        pub is_default: bool,
+    }
+
+    impl IpCfg {
+        /// Converts to the crate's configuration; `None` if the prefix length is invalid.
+        pub(crate) fn to_config(self) -> Option<Config> {
+            Some(match self.addr {
+                IpAddr::V4(addr) => Config::V4 {
+                    ip_net: ipnet::Ipv4Net::new(addr, self.prefix_len).ok()?,
+                    port: self.port,
+                    is_required: self.is_required,
+                    is_default: self.is_default,
+                },
+                IpAddr::V6(addr) => Config::V6 {
+                    ip_net: ipnet::Ipv6Net::new(addr, self.prefix_len).ok()?,
+                    scope_id: self.scope_id,
+                    port: self.port,
+                    is_required: self.is_required,
+                    is_default: self.is_default,
+                },
+            })
+        }
+
+        pub(crate) fn from_config(config: &Config) -> Self {
+            match *config {
+                Config::V4 {
+                    ip_net,
+                    port,
+                    is_required,
+                    is_default,
+                } => Self {
+                    addr: IpAddr::V4(ip_net.addr()),
+                    prefix_len: ip_net.prefix_len(),
+                    scope_id: 0,
+                    port,
+                    is_required,
+                    is_default,
+                },
+                Config::V6 {
+                    ip_net,
+                    scope_id,
+                    port,
+                    is_required,
+                    is_default,
+                } => Self {
+                    addr: IpAddr::V6(ip_net.addr()),
+                    prefix_len: ip_net.prefix_len(),
+                    scope_id,
+                    port,
+                    is_required,
+                    is_default,
+                },
+            }
+        }
+    }
+
+    /// One call of `IpSender::poll_send`: which socket was asked to send what where.
+    #[derive(Debug, Clone, PartialEq, Eq)]
+    pub struct SendRecord {
+        /// The configuration of the socket that was handed the datagram.
+        pub socket: IpCfg,
+        /// Destination as passed to the socket sender (before canonicalisation).
+        pub dst: SocketAddr,
+        /// Source address as passed to the socket sender.
+        pub src: Option<IpAddr>,
+    }
+
+    thread_local! {
+        static LOOPBACK_BINDS: Cell<bool> = const { Cell::new(false) };
+        static FAILING_PORTS: RefCell<Vec<u16>> = const { RefCell::new(Vec::new()) };
+        static SEND_LOG: RefCell<Vec<SendRecord>> = const { RefCell::new(Vec::new()) };
+    }
+
+    /// While set, `IpTransport::bind` on this thread binds the loopback address of the
+    /// configured family with an OS-chosen port instead of the configured address, so that
+    /// arbitrary configurations can be bound.  A configuration whose port is in
+    /// `failing_ports` is bound to a documentation address instead, which the OS refuses.
+    pub fn set_loopback_binds(on: bool, failing_ports: &[u16]) {
+        LOOPBACK_BINDS.with(|c| c.set(on));
+        FAILING_PORTS.with(|c| *c.borrow_mut() = failing_ports.to_vec());
+    }
+
+    /// Returns and clears the `IpSender::poll_send` calls made on this thread.
+    pub fn take_send_log() -> Vec<SendRecord> {
+        SEND_LOG.with(|c| std::mem::take(&mut *c.borrow_mut()))
+    }
+
+    pub(super) fn bind_addr_override(addr: SocketAddr) -> SocketAddr {
+        if !LOOPBACK_BINDS.with(|c| c.get()) {
+            return addr;
+        }
+        let fails = FAILING_PORTS.with(|c| c.borrow().contains(&addr.port()));
+        match addr {
+            SocketAddr::V4(_) if fails => {
+                SocketAddr::V4(SocketAddrV4::new(Ipv4Addr::new(192, 0, 2, 1), 0))
+            }
+            SocketAddr::V4(_) => SocketAddr::V4(SocketAddrV4::new(Ipv4Addr::LOCALHOST, 0)),
+            SocketAddr::V6(_) if fails => SocketAddr::V6(SocketAddrV6::new(
+                Ipv6Addr::new(0x2001, 0xdb8, 0, 0, 0, 0, 0, 1),
+                0,
+                0,
+                0,
+            )),
+            SocketAddr::V6(_) => SocketAddr::V6(SocketAddrV6::new(Ipv6Addr::LOCALHOST, 0, 0, 0)),
+        }
+    }
+
+    pub(super) fn log_send(config: &Config, dst: SocketAddr, src: Option<IpAddr>) {
+        SEND_LOG.with(|c| {
+            c.borrow_mut().push(SendRecord {
+                socket: IpCfg::from_config(config),
+                dst,
+                src,
+            })
+        });
     }
 }
 
